@@ -33,7 +33,7 @@
 (*                           epoch_nanosecond" = the decimal number of     *)
 (*                           nanoseconds since the epoch,                  *)
 (*                           seconds * 10^9 + nanoseconds                  *)
-(*   <<"ts", bytes>>         Timestamp whose nanoseconds field is > 999999999 *)
+(*   <<"ts", bytes>>         Timestamp with a nanoseconds field > 999999999 *)
 (*   <<"ext", type, bytes>>  ext object of a reserved type (type byte      *)
 (*                           128..255 = signed -128..-1) that is not a     *)
 (*                           timestamp                                     *)
